@@ -16,7 +16,9 @@ Ops == [ login   |-> <<"set">>,                                                 
          request |-> <<"get">>,                                                   \* authenticated request, fresh session
          refresh |-> <<"get", "lock_obtain", "get", "set", "lock_release">>,      \* authenticated request, stale session
          signout |-> <<"get", "del">>,                                            \* sign-out with a valid session
-         ready   |-> <<"ping">> ]
+         ready   |-> <<"ping">>,
+         \* a probe that succeeded, then the store goes away, then the next probe at once (whatever the implementation remembers of the first)
+         ready_after_ok |-> <<"ping", "ping">> ]
 Scenarios == DOMAIN Ops
 
 ValueKinds == {"corrupt", "truncate", "short", "missing"}       \* only a read returns a value
@@ -34,7 +36,7 @@ Persists(scn, k) == Ops[scn][k] = "set"
 Fault(k, kind) == [k |-> k, kind |-> kind]
 FaultSets(scn) ==
     LET single == {<<Fault(k, kd)>> : k \in 1..Len(Ops[scn]), kd \in {"err_before", "err_after", "outage"} \cup ValueKinds}
-        valid1 == {f \in single : f[1].kind \in Kinds(Ops[scn][f[1].k])}
+        valid1 == {f \in single : f[1].kind \in Kinds(Ops[scn][f[1].k]) /\ (scn = "ready_after_ok" => f[1].k = 2 /\ f[1].kind = "outage")}
         pairs  == {<<f1[1], f2[1]>> : f1 \in {f \in valid1 : f[1].kind # "outage"}, f2 \in valid1}
     IN valid1 \cup (IF Pairs THEN {p \in pairs : p[1].k < p[2].k} ELSE {})
 
@@ -48,6 +50,8 @@ MustNotSetCookie(scn, fs) == Hit(fs, LAMBDA f : Persists(scn, f.k))
 \* whatever happens: no crash, and a cookie that was handed out loads a session once the store is healthy again
 Always(scn) == [panic |-> FALSE, brokenCookie |-> FALSE]
                @@ (IF scn = "signout" THEN [falseSuccess |-> FALSE] ELSE <<>>)
+               \* (the store IS unreachable at the second probe whether or not the implementation asks it: state-based, not positional)
+               @@ (IF scn = "ready_after_ok" THEN [status |-> [not |-> 200]] ELSE <<>>)
 \* (Judging by the FIRST fault: the requirement below is stated for it; if the implementation repeats that operation and the repeat
 \* succeeds, or issues other operations before it than the scenario has, the scenario does not describe this implementation.)
 \* If the implementation repeats a failed operation and the repeat succeeds (a retry), the operation did not fail in the
@@ -57,7 +61,7 @@ Req(scn, fs) ==
     @@ (IF scn \in {"request", "refresh"} /\ MustNotServe(scn, fs) THEN [served |-> FALSE] ELSE <<>>)
     @@ (IF MustNotSetCookie(scn, fs) THEN [session |-> [not |-> "set"]] ELSE <<>>)
     @@ (IF scn = "signout" THEN [falseSuccess |-> FALSE] ELSE <<>>)          \* never "302" while the old cookie still authenticates
-    @@ (IF scn = "ready" THEN [status |-> [not |-> 200]] ELSE <<>>)
+    @@ (IF scn \in {"ready", "ready_after_ok"} THEN [status |-> [not |-> 200]] ELSE <<>>)
 
 VARIABLE c
 Init == \E scn \in Scenarios, fs \in UNION {FaultSets(s) : s \in Scenarios} :
